@@ -100,6 +100,8 @@ impl Txtpp {
         };
 
         let result = runtime.run_internal();
+        #[cfg(feature = "verif")]
+        crate::verif::sched::finished(result.is_ok());
         if result.is_err() {
             let _ = runtime
                 .progress
@@ -145,6 +147,8 @@ impl Txtpp {
         }
 
         loop {
+            #[cfg(feature = "verif")]
+            crate::verif::sched::main_yield();
             let data = match self.recv.try_recv() {
                 Ok(data) => data,
                 Err(TryRecvError::Empty) => {
@@ -163,6 +167,8 @@ impl Txtpp {
             };
 
             let _ = self.progress.add_done(1);
+            #[cfg(feature = "verif")]
+            crate::verif::sched::received();
 
             match data {
                 TaskResult::ScanDir(result) => {
@@ -259,8 +265,14 @@ impl Txtpp {
             .print_status(verbs::SCANNING, &dir.to_string(), Color::Yellow, true);
         let send = self.send.clone();
         log::info!("scanning directory: {dir}");
+        #[cfg(feature = "verif")]
+        let vg = crate::verif::sched::spawned(crate::verif::sched::TaskKind::Scan, dir.to_string());
         self.threadpool.execute(move || {
+            #[cfg(feature = "verif")]
+            let vg = vg.begin();
             let result = scan_dir(&dir, recursive);
+            #[cfg(feature = "verif")]
+            vg.before_send(result.is_ok());
             send.send(TaskResult::ScanDir(result))
                 .expect("cannot send result")
         });
@@ -293,8 +305,19 @@ impl Txtpp {
         let mode = self.config.mode.clone();
         let trailing_newline = self.config.trailing_newline;
         log::info!("processing file: {file}");
+        #[cfg(feature = "verif")]
+        let vg = crate::verif::sched::spawned(
+            crate::verif::sched::TaskKind::Pp {
+                first: is_first_pass,
+            },
+            file.to_string(),
+        );
         self.threadpool.execute(move || {
+            #[cfg(feature = "verif")]
+            let vg = vg.begin();
             let result = preprocess(&shell, &file, mode, is_first_pass, trailing_newline);
+            #[cfg(feature = "verif")]
+            vg.before_send(result.is_ok());
             send.send(TaskResult::Preprocess(result))
                 .expect("cannot send result")
         });
